@@ -27,6 +27,8 @@ import (
 	"hash/fnv"
 	"net/http/httptest"
 	"os"
+	"slices"
+	"sort"
 	"strings"
 
 	"foxverif/hx"
@@ -40,6 +42,18 @@ type snap struct {
 	it   *fox.Iter // Txn.Iter() / Router.Iter()
 	tx   *fox.Txn  // Txn.Snapshot() / Router.Txn(false)
 	then uint64
+	// frozen listings: what every Seq-returning iterator method (All, Methods, Prefix, Routes, Reverse, with the
+	// arguments of the observation) yielded in the snapshot's FIRST full observation; an abandoned walk must yield
+	// the first k items of its listing
+	lists map[string][]string
+}
+
+// iter is the Iter a snapshot is read through.
+func (s *snap) iter() fox.Iter {
+	if s.it != nil {
+		return *s.it
+	}
+	return s.tx.Iter() // read-only transaction: no snapshot() call
 }
 
 func (s *snap) dump() *fox.VerifTree {
@@ -61,6 +75,315 @@ type world struct {
 	methods []string
 	probes  []probe
 	light   bool // big stream: cheaper observation
+	// abandoned walks (round 7): arnd is a stream of its own (derived from VERIF_SEED) so that the event streams are
+	// the ones of the earlier rounds; prefixes are the arguments of Iter.Prefix; wk is built on first use
+	arnd     *hx.Rand
+	prefixes []string
+	wk       []walk
+	// independent tracker of the registered routes (round 7): built from the write calls the harness issued and
+	// whether each succeeded, and from Begin / Commit / Abort - snapshot events never touch it, so it is the route
+	// set of the same history WITHOUT the snapshot calls. pub = committed, cur = view of the open write transaction.
+	pub, cur map[rkey]uint64
+	ever     map[rkey]bool
+	lastNote string
+	trackOff bool // a call panicked: the state is undefined from here on (reported as a mismatch anyway)
+}
+
+type rkey struct{ method, pat string }
+
+// track applies one event to the tracker.
+func (w *world) track(e ev, inTxn bool, err error, id uint64) {
+	if w.pub == nil {
+		w.pub, w.ever = map[rkey]uint64{}, map[rkey]bool{}
+	}
+	tgt := w.pub
+	if inTxn {
+		tgt = w.cur
+	}
+	switch e.kind {
+	case "Begin":
+		w.cur = make(map[rkey]uint64, len(w.pub))
+		for k, v := range w.pub {
+			w.cur[k] = v
+		}
+	case "Commit":
+		w.pub, w.cur = w.cur, nil
+	case "Abort":
+		w.cur = nil
+	case "Handle", "Update":
+		if err == nil {
+			tgt[rkey{e.method, e.pat}] = id
+			w.ever[rkey{e.method, e.pat}] = true
+		}
+	case "Delete":
+		if err == nil {
+			delete(tgt, rkey{e.method, e.pat})
+		}
+	case "Truncate":
+		if err == nil {
+			for k := range tgt {
+				if len(e.methods) == 0 || slices.Contains(e.methods, k.method) {
+					delete(tgt, k)
+				}
+			}
+		}
+	}
+}
+
+func trackerList(m map[rkey]uint64) []string {
+	out := make([]string, 0, len(m))
+	for k, id := range m {
+		out = append(out, fmt.Sprintf("%s %s #%d", k.method, k.pat, id))
+	}
+	sort.Strings(out)
+	return out
+}
+
+func listDiff(exp, got []string) string {
+	in := func(l []string) map[string]bool {
+		m := map[string]bool{}
+		for _, x := range l {
+			m[x] = true
+		}
+		return m
+	}
+	e, g := in(exp), in(got)
+	var miss, extra []string
+	for _, x := range exp {
+		if !g[x] && len(miss) < 4 {
+			miss = append(miss, x)
+		}
+	}
+	for _, x := range got {
+		if !e[x] && len(extra) < 4 {
+			extra = append(extra, x)
+		}
+	}
+	return fmt.Sprintf("missing %q, unexpected %q, %d expected / %d listed", miss, extra, len(exp), len(got))
+}
+
+// writesAgree: "writes are unaffected by the existence of snapshots". What the router has PUBLISHED (Iter().All(),
+// Len, Route per key ever registered) and what the open write transaction sees (Len, Route per key: reads without
+// side effect on the copy-on-write cache) must be what the tracker says. Returns (expected, observed) digests.
+func (w *world) writesAgree() (exp, got uint64, note string) {
+	if w.pub == nil {
+		w.pub, w.ever = map[rkey]uint64{}, map[rkey]bool{}
+	}
+	keys := make([]rkey, 0, len(w.ever))
+	for k := range w.ever {
+		keys = append(keys, k)
+	}
+	sort.Slice(keys, func(i, j int) bool {
+		return keys[i].method < keys[j].method || (keys[i].method == keys[j].method && keys[i].pat < keys[j].pat)
+	})
+	byKey := func(m map[rkey]uint64) []string {
+		var out []string
+		for _, k := range keys {
+			if id, ok := m[k]; ok {
+				out = append(out, fmt.Sprintf("%s %s #%d", k.method, k.pat, id))
+			}
+		}
+		return out
+	}
+	expPub := trackerList(w.pub)
+	expL := append(append([]string{fmt.Sprint("len ", len(w.pub))}, expPub...), byKey(w.pub)...)
+	if w.txn != nil {
+		expL = append(append(expL, fmt.Sprint("txn len ", len(w.cur))), byKey(w.cur)...)
+	}
+	var gotL []string
+	defer func() {
+		if p := recover(); p != nil {
+			exp, got, note = listDigest(expL), 0xDEAD, fmt.Sprint("panic while reading: ", p)
+		}
+	}()
+	var all []string
+	for m, r := range w.f.Iter().All() {
+		all = append(all, fmt.Sprintf("%s %s #%d", m, r.Pattern(), w.rid[r]))
+	}
+	sort.Strings(all)
+	gotL = append(append(gotL, fmt.Sprint("len ", w.f.Len())), all...)
+	var viaRoute []string
+	for _, k := range keys {
+		if r := w.f.Route(k.method, k.pat); r != nil {
+			viaRoute = append(viaRoute, fmt.Sprintf("%s %s #%d", k.method, k.pat, w.rid[r]))
+		}
+	}
+	gotL = append(gotL, viaRoute...)
+	var viaTxn []string
+	if w.txn != nil {
+		gotL = append(gotL, fmt.Sprint("txn len ", w.txn.Len()))
+		for _, k := range keys {
+			if r := w.txn.Route(k.method, k.pat); r != nil {
+				viaTxn = append(viaTxn, fmt.Sprintf("%s %s #%d", k.method, k.pat, w.rid[r]))
+			}
+		}
+		gotL = append(gotL, viaTxn...)
+	}
+	exp, got = listDigest(expL), listDigest(gotL)
+	if exp != got {
+		switch {
+		case strings.Join(expPub, "\n") != strings.Join(all, "\n") || len(w.pub) != w.f.Len():
+			note = fmt.Sprintf("PUBLISHED routes (Router.Iter().All(), Len=%d) are not the writes committed so far: %s", w.f.Len(), listDiff(expPub, all))
+		case strings.Join(byKey(w.pub), "\n") != strings.Join(viaRoute, "\n"):
+			note = "Router.Route answers differ from the writes committed so far: " + listDiff(byKey(w.pub), viaRoute)
+		default:
+			note = fmt.Sprintf("the open write transaction (Len=%d, Route) does not see its own writes: %s", w.txn.Len(), listDiff(byKey(w.cur), viaTxn))
+		}
+	}
+	return exp, got, note
+}
+
+// walk is one Seq-returning iterator method of Iter with fixed arguments, its items rendered as strings.
+type walk struct {
+	key   string
+	parts []string // what the digest of a full observation is tagged with
+	run   func(w *world, it fox.Iter, yield func(item ...string) bool)
+}
+
+func (w *world) meths(yield func(string) bool) {
+	for _, m := range w.methods {
+		if !yield(m) {
+			return
+		}
+	}
+}
+
+func (w *world) seq2(tag []string, seq func(it fox.Iter) func(func(string, *fox.Route) bool), withPattern bool) walk {
+	return walk{key: strings.Join(tag, " "), parts: tag, run: func(w *world, it fox.Iter, yield func(item ...string) bool) {
+		for m, r := range seq(it) {
+			ok := false
+			if withPattern {
+				ok = yield(m, r.Pattern(), fmt.Sprint(w.rid[r]))
+			} else {
+				ok = yield(m, fmt.Sprint(w.rid[r]))
+			}
+			if !ok {
+				break // the range loop is LEFT here: the iterator sees yield return false
+			}
+		}
+	}}
+}
+
+// patPrefixes: arguments for Iter.Prefix drawn from the pattern pool (the whole tree, "/", a pattern cut in the
+// middle - usually inside an edge -, a pattern up to its last slash, a whole pattern).
+func patPrefixes(pats []string) []string {
+	seen := map[string]bool{}
+	out := []string{}
+	add := func(p string) {
+		if !seen[p] && len(out) < 10 {
+			seen[p] = true
+			out = append(out, p)
+		}
+	}
+	add("/")
+	for i, p := range pats {
+		switch i % 3 {
+		case 0:
+			add(p[:len(p)/2])
+		case 1:
+			if j := strings.LastIndexByte(p, '/'); j > 0 {
+				add(p[:j+1])
+			}
+		case 2:
+			add(p)
+		}
+	}
+	return out
+}
+
+// walks lists every Seq-returning iterator method of Iter with the arguments the observation uses, in the order of
+// the observation: All, Methods, Prefix per prefix; then (full observation only) Routes per pattern, Reverse per probe.
+func (w *world) walks() []walk {
+	if w.wk != nil {
+		return w.wk
+	}
+	if w.prefixes == nil {
+		w.prefixes = patPrefixes(w.pats)
+	}
+	w.wk = append(w.wk, w.seq2([]string{"all"}, func(it fox.Iter) func(func(string, *fox.Route) bool) { return it.All() }, true))
+	w.wk = append(w.wk, walk{key: "method", parts: []string{"method"}, run: func(w *world, it fox.Iter, yield func(item ...string) bool) {
+		for m := range it.Methods() {
+			if !yield(m) {
+				break
+			}
+		}
+	}})
+	for _, p := range w.prefixes {
+		w.wk = append(w.wk, w.seq2([]string{"prefix", p}, func(it fox.Iter) func(func(string, *fox.Route) bool) { return it.Prefix(w.meths, p) }, true))
+	}
+	if w.light {
+		return w.wk
+	}
+	for _, p := range w.pats {
+		w.wk = append(w.wk, w.seq2([]string{"routes", p}, func(it fox.Iter) func(func(string, *fox.Route) bool) { return it.Routes(w.meths, p) }, false))
+	}
+	for _, q := range w.probes {
+		w.wk = append(w.wk, w.seq2([]string{"reverse", q.host, q.path}, func(it fox.Iter) func(func(string, *fox.Route) bool) { return it.Reverse(w.meths, q.host, q.path) }, false))
+	}
+	return w.wk
+}
+
+func listDigest(items []string) uint64 {
+	h := fnv.New64a()
+	for _, x := range items {
+		h.Write([]byte(x))
+		h.Write([]byte{1})
+	}
+	return h.Sum64()
+}
+
+// abandon runs ONE Seq-returning iterator method on snapshot s and leaves the range loop after k items (k drawn
+// below the length of the frozen listing, so the walk really is abandoned whenever the listing is not empty).
+// Expected = the first k items of the listing frozen at the snapshot's first observation.
+func (w *world) abandon(s *snap, label string) (exp, got uint64, desc string) {
+	wk := hx.Pick(w.arnd, w.walks())
+	if w.arnd.Pct(40) {
+		wk = w.walks()[0] // All
+	}
+	frozen, ok := s.lists[wk.key]
+	k := 0
+	if len(frozen) > 0 {
+		k = w.arnd.Intn(len(frozen))
+	}
+	desc = fmt.Sprintf("%s of %s left after %d of %d items", wk.key, label, k, len(frozen))
+	var items []string
+	defer func() {
+		if p := recover(); p != nil {
+			exp, got = listDigest(frozen[:k]), 0xDEAD
+		}
+	}()
+	wk.run(w, s.iter(), func(item ...string) bool {
+		if len(items) == k {
+			return false
+		}
+		items = append(items, strings.Join(item, "\x00"))
+		return true
+	})
+	if !ok { // the first observation did not get that far (it panicked): nothing to compare with
+		return 0, 0, desc
+	}
+	return listDigest(frozen[:k]), listDigest(items), desc
+}
+
+// abandonPublished: the same on a fresh Iter of the published tree (the newest iterator there is; nothing frozen to
+// compare with - what matters is what the walk leaves behind).
+func (w *world) abandonPublished() (desc string) {
+	wk := hx.Pick(w.arnd, w.walks()[:2+len(w.prefixes)])
+	if w.arnd.Pct(40) {
+		wk = w.walks()[0]
+	}
+	k := w.arnd.Intn(4)
+	desc = fmt.Sprintf("%s of a fresh Router.Iter() left after at most %d items", wk.key, k)
+	defer func() { _ = recover() }()
+	n := 0
+	wk.run(w, w.f.Iter(), func(item ...string) bool {
+		if n == k {
+			return false
+		}
+		n++
+		return true
+	})
+	return desc
 }
 
 func (w *world) handler() (fox.HandlerFunc, uint64) {
@@ -87,17 +410,28 @@ func (w *world) observe1(s *snap) uint64 {
 		}
 		h.Write([]byte{1})
 	}
-	var it fox.Iter
-	if s.it != nil {
-		it = *s.it
-	} else {
-		it = s.tx.Iter() // read-only transaction: no snapshot() call
+	it := s.iter()
+	first := s.lists == nil
+	if first {
+		s.lists = map[string][]string{}
 	}
-	for m, r := range it.All() {
-		put("all", m, r.Pattern(), fmt.Sprint(w.rid[r]))
+	wks := w.walks()
+	full := func(wk walk) {
+		var items []string
+		wk.run(w, it, func(item ...string) bool {
+			put(append(append([]string{}, wk.parts...), item...)...)
+			if first {
+				items = append(items, strings.Join(item, "\x00"))
+			}
+			return true
+		})
+		if first {
+			s.lists[wk.key] = items
+		}
 	}
-	for m := range it.Methods() {
-		put("method", m)
+	np := 2 + len(w.prefixes)
+	for _, wk := range wks[:np] { // All, Methods, Prefix
+		full(wk)
 	}
 	d := s.dump()
 	d.Size, d.MaxParams = 0, 0 // not part of an Iter; compared for transactions through Len below
@@ -108,17 +442,8 @@ func (w *world) observe1(s *snap) uint64 {
 	if w.light {
 		return h.Sum64()
 	}
-	meths := func(yield func(string) bool) {
-		for _, m := range w.methods {
-			if !yield(m) {
-				return
-			}
-		}
-	}
-	for _, p := range w.pats {
-		for m, r := range it.Routes(meths, p) {
-			put("routes", p, m, fmt.Sprint(w.rid[r]))
-		}
+	for i, p := range w.pats {
+		full(wks[np+i])
 		if s.tx != nil {
 			for _, m := range w.methods {
 				put("has", m, p, fmt.Sprint(s.tx.Has(m, p)))
@@ -128,10 +453,8 @@ func (w *world) observe1(s *snap) uint64 {
 			}
 		}
 	}
-	for _, q := range w.probes {
-		for m, r := range it.Reverse(meths, q.host, q.path) {
-			put("reverse", q.host, q.path, m, fmt.Sprint(w.rid[r]))
-		}
+	for i, q := range w.probes {
+		full(wks[np+len(w.pats)+i])
 		if s.tx != nil {
 			r, tsr := s.tx.Reverse(q.method, q.host, q.path)
 			if r != nil {
@@ -455,6 +778,9 @@ func (w *world) apply(e ev, gmode int, withDigest bool) (string, string) {
 		if evTerm == "" {
 			evTerm = "EAbort"
 		}
+		w.trackOff = true
+	} else {
+		w.track(e, inTxn, err, id)
 	}
 	switch e.kind {
 	case "SnapIter", "SnapClone", "ObsIter", "ObsTxn":
@@ -488,12 +814,48 @@ func (w *world) apply(e ev, gmode int, withDigest bool) (string, string) {
 	var fr []string
 	bad := ""
 	if withDigest {
+		abExp, abGot := uint64(0), uint64(0) // all abandoned walks of this event folded into ONE pair (expected, yielded)
 		for i, s := range w.snaps {
+			// Before the snapshot is re-observed in full, range loops over other iterators are LEFT EARLY (break after
+			// k items): mostly over NEWER ones (a later snapshot, e.g. the Txn.Iter() of the open write transaction, or a
+			// fresh Iter of the published tree), sometimes over any held snapshot including this one. Whatever an abandoned
+			// walk leaves behind must not show up in anybody's listing; the walk itself must yield the first k items of
+			// its own snapshot's frozen listing.
+			var ab []string
+			for a := w.arnd.Range(1, 3); a > 0; a-- {
+				j := i + 1 + w.arnd.Intn(len(w.snaps)-i) // i+1 .. len(snaps); len(snaps) = the published tree
+				if w.arnd.Pct(25) {
+					j = w.arnd.Intn(len(w.snaps))
+				}
+				if j == len(w.snaps) {
+					ab = append(ab, w.abandonPublished())
+					continue
+				}
+				exp, got, desc := w.abandon(w.snaps[j], fmt.Sprintf("snapshot #%d (%s)", j, w.snaps[j].kind))
+				ab = append(ab, desc)
+				abExp, abGot = hmix(abExp, exp&0xFFFFFFFF), hmix(abGot, got&0xFFFFFFFF)
+				if exp != got {
+					bad += fmt.Sprintf(" [abandoned walk %s: yielded other items than the first ones of its frozen listing]", desc)
+				}
+			}
 			now := w.observe(s)
 			fr = append(fr, fmt.Sprintf("(%d, %d)", s.then, now))
 			if now != s.then {
-				bad += fmt.Sprintf(" [snapshot #%d (%s) CHANGED]", i, s.kind)
+				bad += fmt.Sprintf(" [snapshot #%d (%s) CHANGED; range loops left early since the previous full re-observation: %s]", i, s.kind, strings.Join(ab, ", "))
 			}
+		}
+		if len(w.snaps) > 0 {
+			fr = append(fr, fmt.Sprintf("(%d, %d)", abExp, abGot))
+		}
+		if !w.trackOff {
+			exp, got, note := w.writesAgree()
+			fr = append(fr, fmt.Sprintf("(%d, %d)", exp, got))
+			if exp != got && note != w.lastNote {
+				bad += " [" + note + "]"
+			} else if exp != got {
+				bad += " [still so]"
+			}
+			w.lastNote = note
 		}
 	}
 	term := fmt.Sprintf("mkS %s %s %s %s\n     %s %s %d %d %s",
@@ -520,10 +882,13 @@ func (w *world) apply(e ev, gmode int, withDigest bool) (string, string) {
 	return "(" + term + ")", human + " -> " + oname + bad
 }
 
+// arndSrc: the stream the abandoned walks draw from (one fork per world, in creation order).
+var arndSrc = hx.NewRand(hx.Seed() + 30307)
+
 func newWorld(light bool) *world {
 	f, err := fox.New()
 	hx.Fatal(err)
-	return &world{f: f, rid: map[*fox.Route]uint64{}, light: light}
+	return &world{f: f, rid: map[*fox.Route]uint64{}, light: light, arnd: arndSrc.Fork()}
 }
 
 func (w *world) release() {
@@ -552,7 +917,7 @@ func main() {
 	rnd := hx.NewRand(hx.Seed() + 303)
 
 	cs := &hx.Cases{Header: header, Type: "c3case", Footer: footer}
-	st := &hx.Stats{Rule: "histories of 6-45 events over a pool of 5-12 colliding patterns (shared prefixes, same position with different wildcard names, hostnames) on GET/POST/FOO/BAR: Handle/Update/Delete/Truncate issued through the Router helpers or inside write transactions (Commit/Abort), with snapshots (Txn.Iter, Txn.Snapshot, Router.Iter, Router.Txn(false)) at random points including inside write transactions; every snapshot is re-observed in full and the object graph is dumped after every event; plus eviction streams (fan-out 66, depth 3, > 4096 nodes cloned in one transaction). non-trivial = history in which at least one snapshot was taken and at least one successful write followed it; distinct = distinct event sequences; plus nested-structure scenarios (one fifth as many): a nested tree is registered, readers snapshot the published state, then cached write transactions restructure a node (delete that merges a parent with its last child, delete of an inner route, insert that splits an edge, update) and write at / next to / below it, mostly without Iter()/Snapshot() in between, ending in Commit or Abort"}
+	st := &hx.Stats{Rule: "histories of 6-45 events over a pool of 5-12 colliding patterns (shared prefixes, same position with different wildcard names, hostnames) on GET/POST/FOO/BAR: Handle/Update/Delete/Truncate issued through the Router helpers or inside write transactions (Commit/Abort), with snapshots (Txn.Iter, Txn.Snapshot, Router.Iter, Router.Txn(false)) at random points including inside write transactions; every snapshot is re-observed in full and the object graph is dumped after every event; plus eviction streams (fan-out 66, depth 3, > 4096 nodes cloned in one transaction). non-trivial = history in which at least one snapshot was taken and at least one successful write followed it; distinct = distinct event sequences; plus nested-structure scenarios (one fifth as many): a nested tree is registered, readers snapshot the published state, then cached write transactions restructure a node (delete that merges a parent with its last child, delete of an inner route, insert that splits an edge, update) and write at / next to / below it, mostly without Iter()/Snapshot() in between, ending in Commit or Abort; plus settle scenarios (one tenth as many): size-neutral write sets (Update, Delete+Handle, Handle+Delete) with Txn.Iter()/Txn.Snapshot() as the last operation before Commit/Abort. Before every full re-observation of a snapshot, range loops over Seq-returning Iter methods (All, Methods, Prefix, Routes, Reverse) of newer iterators are left early after k items; after every event the published routes and the open transaction's view are compared with a tracker of the issued writes that ignores snapshot events"}
 
 	n := 300
 	if tier == "thorough" {
@@ -744,6 +1109,18 @@ func main() {
 	nn := n / 5
 	for k := 0; k < nn; k++ {
 		t, h, nt := nestedHistory(rnd, st)
+		cs.Add(t, h)
+		if nt && !seen[h] {
+			nontrivial++
+		}
+		seen[h] = true
+	}
+
+	// settle scenarios (round 7): write sets that leave the size unchanged, a snapshot as the last tree operation
+	// before Commit / Abort. A stream of their own, so that the histories above are the ones of the earlier rounds.
+	srnd := hx.NewRand(hx.Seed() + 30311)
+	for k := 0; k < n/10; k++ {
+		t, h, nt := settleHistory(srnd, st)
 		cs.Add(t, h)
 		if nt && !seen[h] {
 			nontrivial++
@@ -1015,6 +1392,150 @@ func nestedHistory(rnd *hx.Rand, st *hx.Stats) (string, string, bool) {
 	return "{| k_cap := 4096; k_steps := " + hx.List(terms) + " |}", hs, writesAfterSnap > 0
 }
 
+// settleHistory: "writes are unaffected by the existence of a snapshot", at the point where a transaction is
+// settled. A nested tree is registered; then 2-4 write transactions run a write set that mostly leaves the number of
+// routes unchanged (Update; Delete p + Handle p; Handle q + Delete p; Handle q + Delete q), sometimes not (a single
+// Handle or Delete, Truncate of a method + one route put back), with Txn.Iter() / Txn.Snapshot() taken after the
+// last write (60 %), between two writes (20 %) or not at all, and end with Commit (75 %) or Abort; readers hold the
+// published tree; one-shot writes follow. After every event the tracker (which ignores snapshot events) is compared
+// with what the router has published and with what the open transaction sees, next to the usual observations.
+func settleHistory(rnd *hx.Rand, st *hx.Stats) (string, string, bool) {
+	w := newWorld(false)
+	prefix := hx.Pick(rnd, []string{"/foo/", "/", "/a/", "/{p}/", "h.com/", "/files/*{path}/meta/", "/v"})
+	var pool []string
+	nestedTree(rnd, prefix, 2, &pool)
+	method := hx.Pick(rnd, []string{"GET", "GET", "POST", "FOO"})
+	other := hx.Pick(rnd, []string{"GET", "BAR"})
+	w.methods = []string{method, other}
+	var fresh []string
+	for _, p := range pool {
+		for _, sfx := range []string{"/1", "z", "/{id}"} {
+			if q := p + sfx; !strings.Contains(q, "//") && len(fresh) < 12 {
+				fresh = append(fresh, q)
+			}
+		}
+	}
+	w.pats = append(append([]string{}, pool...), fresh...)
+	for _, p := range w.pats {
+		h, pa := rt.SplitPattern(rt.Instantiate(rnd, p, false))
+		if pa == "" {
+			pa = "/"
+		}
+		w.probes = append(w.probes, probe{method, h, pa})
+	}
+	var terms, human []string
+	writesAfterSnap := 0
+	step := func(e ev) bool {
+		if e.method == "" {
+			e.method = method
+		}
+		t, h := w.apply(e, 1, true)
+		terms = append(terms, t)
+		human = append(human, h)
+		st.Count("settle-ev:" + e.kind)
+		ok := strings.Contains(h, "-> ok")
+		if ok && len(w.snaps) > 0 && (e.kind == "Handle" || e.kind == "Update" || e.kind == "Delete" || e.kind == "Truncate") {
+			writesAfterSnap++
+		}
+		return ok
+	}
+	live := map[string]bool{}
+	for _, p := range pool {
+		if step(ev{kind: "Handle", pat: p}) {
+			live[p] = true
+		}
+	}
+	if rnd.Pct(40) {
+		step(ev{kind: "Handle", method: other, pat: hx.Pick(rnd, pool)})
+	}
+	pickLive := func() string {
+		l := hx.SortedKeys(live)
+		if len(l) == 0 {
+			return hx.Pick(rnd, pool)
+		}
+		return hx.Pick(rnd, l)
+	}
+	for round := rnd.Range(2, 4); round > 0; round-- {
+		if len(w.snaps) < 6 && rnd.Pct(50) {
+			step(ev{kind: hx.Pick(rnd, []string{"ObsIter", "ObsTxn"})})
+		}
+		step(ev{kind: "Begin"})
+		before := map[string]bool{}
+		for p := range live {
+			before[p] = true
+		}
+		// the write set, as a list of calls
+		var calls []ev
+		for g := rnd.Range(1, 3); g > 0; g-- {
+			p, q := pickLive(), hx.Pick(rnd, fresh)
+			switch x := rnd.Intn(100); {
+			case x < 30:
+				calls = append(calls, ev{kind: "Update", pat: p})
+			case x < 45:
+				calls = append(calls, ev{kind: "Delete", pat: p}, ev{kind: "Handle", pat: p})
+			case x < 60:
+				calls = append(calls, ev{kind: "Handle", pat: q}, ev{kind: "Delete", pat: p})
+			case x < 70:
+				calls = append(calls, ev{kind: "Handle", pat: q}, ev{kind: "Delete", pat: q})
+			case x < 80:
+				calls = append(calls, ev{kind: "Handle", pat: q})
+			case x < 90:
+				calls = append(calls, ev{kind: "Delete", pat: p})
+			case x < 95:
+				calls = append(calls, ev{kind: "Update", method: other, pat: p})
+			default:
+				calls = append(calls, ev{kind: "Truncate", methods: []string{other}}, ev{kind: "Handle", method: other, pat: p})
+			}
+		}
+		snapAt := -1 // index of the call after which the snapshot is taken
+		switch x := rnd.Intn(100); {
+		case x < 60:
+			snapAt = len(calls) - 1
+		case x < 80:
+			snapAt = rnd.Intn(len(calls))
+		}
+		for i, c := range calls {
+			ok := step(c)
+			if ok && (c.method == "" || c.method == method) {
+				switch c.kind {
+				case "Handle":
+					live[c.pat] = true
+				case "Delete":
+					delete(live, c.pat)
+				}
+			}
+			if i == snapAt && len(w.snaps) < 10 {
+				step(ev{kind: hx.Pick(rnd, []string{"SnapIter", "SnapClone"})})
+			}
+		}
+		if rnd.Pct(75) {
+			step(ev{kind: "Commit"})
+		} else {
+			step(ev{kind: "Abort"})
+			live = before
+		}
+		for i := rnd.Range(0, 2); i > 0; i-- {
+			switch rnd.Intn(3) {
+			case 0:
+				step(ev{kind: "Update", pat: pickLive()})
+			case 1:
+				if p := pickLive(); step(ev{kind: "Delete", pat: p}) {
+					delete(live, p)
+				}
+			default:
+				if q := hx.Pick(rnd, fresh); step(ev{kind: "Handle", pat: q}) {
+					live[q] = true
+				}
+			}
+		}
+	}
+	st.Count("history:settle")
+	st.Count(fmt.Sprintf("snapshots:%d", len(w.snaps)))
+	w.release()
+	hs := strings.Join(human, " ; ")
+	return "{| k_cap := 4096; k_steps := " + hx.List(terms) + " |}", hs, writesAfterSnap > 0
+}
+
 const alphabet = "0123456789abcdefghijklmnopqrstuvwxyzABCDEFGHIJKLMNOPQRSTUVWXYZ-_~!"
 
 // evictionStream: /a/b and /a/b/x for all a, b in a 66-letter alphabet (root -> "/" -> 66 nodes "a/"
@@ -1026,6 +1547,7 @@ const alphabet = "0123456789abcdefghijklmnopqrstuvwxyzABCDEFGHIJKLMNOPQRSTUVWXYZ
 func evictionStream(rnd *hx.Rand, st *hx.Stats, name string) (defName, defTerm, term, humanS string, cloned int) {
 	w := newWorld(true)
 	w.methods = []string{"GET"}
+	w.prefixes = []string{"/a/", "/Z/7", "/~"}
 	var terms []string
 	var human []string
 	step := func(e ev, gmode int, digest bool) {
